@@ -1851,6 +1851,11 @@ impl<'a, E: quiver_core::effects::Effect> Compiler<'a, E> {
             };
 
             if let Some(scope) = self.scopes.last_mut() {
+                // Rebinding a name in the scope that holds pre-evaluated paths of the old value
+                // (`a.x` captured by this function) leaves those paths unreachable: drop them so
+                // `a.x` reads the new `a`.
+                let path_prefix = format!("{}.", variable_name);
+                scope.bindings.retain(|key, _| !key.starts_with(&path_prefix));
                 scope.bindings.insert(
                     variable_name.clone(),
                     Binding::Variable {
